@@ -31,18 +31,6 @@ theorem Dfa.run_lt (d : Dfa) (h : d.wf = true) (s : List Char) : ∀ p, p < d.st
 
 /-! ### relations -/
 
-theorem mem_comp {X Y : Rel} {p q r : Nat} (h1 : (p, q) ∈ X) (h2 : (q, r) ∈ Y) : (p, r) ∈ comp X Y := by
-  unfold comp
-  rw [List.mem_flatMap]
-  refine ⟨(p, q), h1, ?_⟩
-  rw [List.mem_map]
-  exact ⟨(q, r), by simp [List.mem_filter, h2], rfl⟩
-
-theorem subRel_mem {X Y : Rel} (h : subRel X Y = true) {e : Nat × Nat} (he : e ∈ X) : e ∈ Y := by
-  unfold subRel at h
-  rw [List.all_eq_true] at h
-  simpa using h e he
-
 theorem addNew_sub (X Y : Rel) {e : Nat × Nat} (he : e ∈ X) : e ∈ addNew X Y := by
   unfold addNew
   induction Y generalizing X with
@@ -53,6 +41,33 @@ theorem addNew_sub (X Y : Rel) {e : Nat × Nat} (he : e ∈ X) : e ∈ addNew X 
     split
     · exact he
     · exact List.mem_append_left _ he
+
+theorem addNew_right (X Y : Rel) {e : Nat × Nat} (he : e ∈ Y) : e ∈ addNew X Y := by
+  unfold addNew
+  induction Y generalizing X with
+  | nil => cases he
+  | cons y ys ih =>
+    simp only [List.foldl_cons]
+    rcases List.mem_cons.mp he with rfl | h
+    · have : e ∈ (if X.contains e = true then X else X ++ [e]) := by
+        split
+        · rename_i hc; simpa using hc
+        · simp
+      exact addNew_sub _ ys this
+    · exact ih _ h
+
+theorem mem_comp {X Y : Rel} {p q r : Nat} (h1 : (p, q) ∈ X) (h2 : (q, r) ∈ Y) : (p, r) ∈ comp X Y := by
+  unfold comp
+  apply addNew_right
+  rw [List.mem_flatMap]
+  refine ⟨(p, q), h1, ?_⟩
+  rw [List.mem_map]
+  exact ⟨(q, r), by simp [List.mem_filter, h2], rfl⟩
+
+theorem subRel_mem {X Y : Rel} (h : subRel X Y = true) {e : Nat × Nat} (he : e ∈ X) : e ∈ Y := by
+  unfold subRel at h
+  rw [List.all_eq_true] at h
+  simpa using h e he
 
 theorem starRel_spec (R : Rel) : ∀ (fuel : Nat) (X Z : Rel), starRel R fuel X = some Z →
     (∀ e, e ∈ X → e ∈ Z) ∧ subRel (comp R Z) Z = true := by
@@ -152,7 +167,7 @@ theorem Dfa.rel_sound (d : Dfa) (hwf : d.wf = true) {r : Re} {s : List Char} (hm
     split at hX
     · rename_i Xa Xb ha hb
       cases hX
-      exact List.mem_append_left _ (ih Xa ha p hp)
+      exact addNew_sub _ _ (ih Xa ha p hp)
     · cases hX
   | @altR a b s _ ih =>
     intro X hX p hp
@@ -160,7 +175,7 @@ theorem Dfa.rel_sound (d : Dfa) (hwf : d.wf = true) {r : Re} {s : List Char} (hm
     split at hX
     · rename_i Xa Xb ha hb
       cases hX
-      exact List.mem_append_right _ (ih Xb hb p hp)
+      exact addNew_right _ _ (ih Xb hb p hp)
     · cases hX
   | @starNil a =>
     intro X hX p hp
